@@ -25,6 +25,7 @@ FOCI_BY_STRATUM = {
     "media": ["media", "all"],
     "mixed": ["provide", "compcache", "lru", "media", "misc", "classattr", "all"],
     "extends": ["tplflag", "tplflag", "tplflag", "misc", "compcache", "classattr", "all"],
+    "view": ["misc", "misc", "compcache", "provide", "all"],
 }
 
 # ---- stratum "extends": components and pages written with Django's template inheritance --------------------------
@@ -64,6 +65,17 @@ def draw_xpage(ch):
     body = "".join(comp(0) for _ in range(1 + ch.draw(2, "xitems")))
     return X_WRAPPERS[ch.weighted([3, 2, 2, 2], "xwrap")] % body
 
+# ---- stratum "view": requests served concurrently by ONE view function made with Component.as_view() ---------------
+# (the documented way to put a component into urls.py: every request renders through the SAME Component instance)
+V_COMPONENTS = {
+    "VB": '<em>{{ label }}|{% slot "l" default %}nolabel{% endslot %}</em>',
+    "VP": ('<div><b>{{ myid }}</b>{{ name }}/{{ same }}/{{ inj }}'
+           '{% provide "k" who=name %}{% component "VB" label=name %}{% fill "l" %}{{ name }}{% endfill %}{% endcomponent %}'
+           '{% endprovide %}{% slot "t" default %}T0{% endslot %}</div>'),
+}
+V_ROOT_ID_RE = re.compile(r"<div data-djc-id-([0-9A-Za-z]{6})")
+V_ECHO_ID_RE = re.compile(r"<b[^>]*>([0-9A-Za-z]{6})</b>")
+
 ID_RE = re.compile(r"\b[0-9A-Za-z]{6}\b")
 
 
@@ -74,7 +86,7 @@ def default_params(tier):
     p["max_tasks"] = 3
     p["filled_weight"] = 4   # is_filled echoes make per-instance state that leaks between threads observable
     # (drawn uniformly from this list: the five original strata twice each, template inheritance once)
-    p["strata"] = ["clean", "provide", "lru", "media", "mixed"] * 2 + ["extends"]
+    p["strata"] = ["clean", "provide", "lru", "media", "mixed"] * 2 + ["extends", "view"]
     return p
 
 
@@ -131,6 +143,14 @@ def draw_tasks(ch, params, force_stratum=None):
         first = draw_xpage(ch)
         for k in range(n):
             tasks.append({"kind": "xrender", "page": first if (shared or k == 0) else draw_xpage(ch), "xshared": shared})
+        return {"stratum": stratum, "mode": mode, "tasks": tasks, "progs": progs}
+    elif stratum == "view":
+        for k in range(n):
+            t = {"kind": "view", "name": f"n{k}", "slot": ch.draw(3, "vslot"), "via": ch.weighted([4, 1], "vvia")}
+            if k == n - 1 and ch.chance(1, 4, "failing_task"):
+                t["fault_at"] = 1 + ch.draw(3, "fault_at")
+                t["exc"] = ch.draw(len(world.exc_kinds()), "exc")
+            tasks.append(t)
         return {"stratum": stratum, "mode": mode, "tasks": tasks, "progs": progs}
     elif stratum == "lru":
         size = [1, 2, 3][ch.draw(3, "lru_size")]
@@ -195,6 +215,35 @@ class Setup:
             self.build_extends(spec)
         if spec["stratum"] == "media":
             self.media_classes = self.build_hierarchy(spec["hier"])
+        if spec["stratum"] == "view":
+            self.build_view()
+
+    def build_view(self):
+        from django_components import Component, registry
+
+        def vb_gcd(self, label=None):
+            world.fault_point("gcd:VB")
+            return {"label": label, "who": emit.fmt_injected(self.inject("k", emit.DEFAULT_SENTINEL))}
+
+        def vp_gcd(self, name=None):
+            world.fault_point("gcd:VP")
+            # what a component commonly reads in get_context_data: its own input, its render id, injected data
+            return {"name": name, "same": self.input.kwargs.get("name") == name, "myid": self.id,
+                    "inj": emit.fmt_injected(self.inject("k", emit.DEFAULT_SENTINEL))}
+
+        def vp_get(self, request, *args, **kwargs):
+            slot = request.GET.get("slot")
+            slots = {"t": "S-" + request.GET["name"]} if slot == "1" else (
+                {"t": (lambda ctx, data, ref: "F-" + request.GET["name"])} if slot == "2" else None)
+            return self.render_to_response(kwargs={"name": request.GET["name"]}, slots=slots)
+
+        registry.register("VB", type("VB", (Component,), {"__module__": "sim.generated", "template": V_COMPONENTS["VB"],
+                                                          "get_context_data": vb_gcd}))
+        vp = type("VP", (Component,), {"__module__": "sim.generated", "template": V_COMPONENTS["VP"],
+                                        "get_context_data": vp_gcd, "get": vp_get})
+        registry.register("VP", vp)
+        self.view_cls = vp
+        self.view = vp.as_view()          # ONE view function = one Component instance for all requests
 
     def build_extends(self, spec):
         from django.template import Template, engines
@@ -294,6 +343,22 @@ class Setup:
             def fn():
                 tpl = self.xshared if t.get("xshared") else Template(t["page"])
                 return R.normalise(str(tpl.render(Context({"pa": "PA", "pb": "PB"}))))
+            return wrap(fn)
+        if kind == "view":
+            from django.test import RequestFactory
+
+            def fn():
+                if t["via"] == 1:
+                    # the same class rendered through the Python entry while the others go through the shared view
+                    html = str(self.view_cls.render(kwargs={"name": t["name"]}))
+                else:
+                    resp = self.view(RequestFactory().get("/", {"name": t["name"], "slot": str(t["slot"])}))
+                    html = resp.content.decode()
+                root = V_ROOT_ID_RE.search(html)
+                echo = V_ECHO_ID_RE.search(html)
+                id_ok = bool(root and echo and root.group(1) == echo.group(1))
+                body = html[html.index("<div"): html.index("</div>") + 6] if "<div" in html else html
+                return [mask_ids(R.normalise(body), w), "Component.id equals the id on the root element: %s" % id_ok]
             return wrap(fn)
         if kind == "render_deps":
             from django.template import Context, Template
